@@ -181,6 +181,26 @@ type gen struct {
 	*genEnv
 	t       *rapid.T
 	doctype bool // a doctype precedes the body
+	bytes   bool // this case may contain bytes that are not valid UTF-8
+	long    int  // this case contains a very long line of that many characters
+}
+
+// badBytes: text that is not valid UTF-8 (Latin-1 letters, a lead byte without continuation, 0xFF,
+// an overlong sequence, an encoded surrogate, a truncated 4-byte sequence), stored byte-encoded.
+var badBytes = func() []string {
+	raw := []string{"caf\xe9", "\xc3", "\xff", "\xc0\xaf", "\xed\xa0\x80", "\xf0\x9f", "na\xefve \xe9t\xe9", "\xe9", "x\x80y", "Gr\xfc\xdfe"}
+	for i := range raw {
+		raw[i] = encodeBytes(raw[i])
+	}
+	return raw
+}()
+
+// maybeBytes replaces a drawn piece by invalid-UTF-8 text in cases that carry such bytes.
+func (g *gen) maybeBytes(s string) string {
+	if g.bytes && g.chance("bad", 3) {
+		return g.pick("badb", badBytes)
+	}
+	return s
 }
 
 func (g *gen) pick(label string, xs []string) string { return rapid.SampledFrom(xs).Draw(g.t, label) }
@@ -218,7 +238,7 @@ func (g *gen) mustacheBody() string {
 		}
 		switch g.n("mbp", 0, 5) {
 		case 0, 1:
-			sb.WriteString(g.pick("mbwide", wideBits))
+			sb.WriteString(g.maybeBytes(g.pick("mbwide", wideBits)))
 		case 2:
 			sb.WriteString(g.pick("mbhaz", []string{"<b>", "</p>", "<br>", "<!-- x -->", "<?x", "a<b", "&amp;", "&lt;", "<i class='x'>", `"<em>"`}))
 		case 3:
@@ -254,7 +274,7 @@ func (g *gen) textSource(allowWS bool) string {
 		}
 		switch g.n("piece", 0, 11) {
 		case 0, 1, 2, 3:
-			sb.WriteString(g.pick("w", words))
+			sb.WriteString(g.maybeBytes(g.pick("w", words)))
 		case 4, 5, 6:
 			m := g.pick("m", mustachesSafe)
 			sb.WriteString(escText(m, g.n("mraw", 0, 3) > 0))
@@ -350,7 +370,7 @@ func (g *gen) unbalancedBlock() *node {
 func (g *gen) text(allowWS bool) *node { return &node{isText: true, text: g.textSource(allowWS)} }
 
 func (g *gen) comment() *node {
-	return &node{comment: g.pick("c", []string{" note ", "TODO: x < y", " a\n   b ", "", " {{ not a mustache }} ", " <b>markup</b> "})}
+	return &node{comment: g.maybeBytes(g.pick("c", []string{" note ", "TODO: x < y", " a\n   b ", "", " {{ not a mustache }} ", " <b>markup</b> "}))}
 }
 
 // --- attributes -------------------------------------------------------------------------------
@@ -412,7 +432,7 @@ func (g *gen) freeValue() string {
 			sb.WriteString(g.entityLike())
 			continue
 		}
-		sb.WriteString(g.pick("bit", freeBits))
+		sb.WriteString(g.maybeBytes(g.pick("bit", freeBits)))
 	}
 	return sb.String()
 }
@@ -594,7 +614,7 @@ func (g *gen) preformatted() *node {
 			sb.WriteString("<" + tag + ">" + g.pick("prein", preBits) + "</" + tag + ">")
 			continue
 		}
-		sb.WriteString(g.pick("pre", preBits))
+		sb.WriteString(g.maybeBytes(g.pick("pre", preBits)))
 	}
 	content := sb.String()
 	if strings.HasPrefix(content, "\n") {
@@ -1057,10 +1077,43 @@ func (g *gen) frontMatter() string {
 	return sb.String()
 }
 
+// longBlock draws an element that carries one very long line (the U+F6FF token): a minified
+// bundle in <script>, a base64 data: URI in <style> or in an attribute, a long line in <pre>,
+// <textarea>, <noscript>, inline text, a comment; alone on its line, or with lines around it.
+func (g *gen) longBlock() *node {
+	around := func(s string) string {
+		return g.pick("lpre", []string{"", "", "first();\n", "\n  a\n"}) + s + g.pick("lpost", []string{"", "", "\nlast();", "\n\n  tail  x\n"})
+	}
+	switch g.n("lkind", 0, 9) {
+	case 0, 1:
+		return &node{tag: "script", rawBody: around(`var b="` + longTok + `";`)}
+	case 2, 3:
+		return &node{tag: "style", rawBody: around(".a{background:url(data:image/png;base64," + longTok + ")}")}
+	case 4:
+		return &node{tag: "pre", rawBody: around("  " + longTok + "  end")}
+	case 5:
+		return &node{tag: "textarea", rawBody: around(longTok)}
+	case 6:
+		return &node{tag: "img", void: true, attrs: []attr{{name: "src", val: "data:image/png;base64," + longTok, quote: '"', sep: " "}, {name: "alt", val: "x", quote: '"', sep: "\n  "}}}
+	case 7:
+		return &node{tag: g.pick("ltag", []string{"p", "span", "li", "div", "h2", "label"}), inline: true, kids: []*node{{isText: true, text: "x " + longTok + " y"}}}
+	case 8:
+		return &node{tag: "div", kids: []*node{{tag: "p", inline: true, kids: []*node{{isText: true, text: "a"}}}, {isText: true, text: longTok + " {{ x }}"}, {comment: " " + longTok + " "}}}
+	default:
+		return &node{tag: "noscript", rawBody: "<p>" + longTok + "</p>"}
+	}
+}
+
 // genCase draws one generated template.
 func (g0 *genEnv) genCase(t *rapid.T) Case {
 	g := &gen{genEnv: g0, t: t}
 	c := Case{Kind: "gen"}
+	g.bytes = g.chance("bytes", 10)
+	c.RawBytes = g.bytes
+	if g.chance("long", 60) {
+		g.long = rapid.SampledFrom([]int{4096, 65534, 65535, 65536, 65537, 204800}).Draw(t, "longn")
+		c.Long = g.long
+	}
 	if g.chance("fm", 3) {
 		c.FrontMatter = g.frontMatter()
 		c.Gap = g.pick("gap", []string{"", "", "\n", "\n\n"})
@@ -1071,6 +1124,9 @@ func (g0 *genEnv) genCase(t *rapid.T) Case {
 	switch {
 	case shape <= 4: // fragment
 		roots := g.flow(3, fb, 3)
+		if g.long > 0 {
+			roots = append(roots, g.longBlock())
+		}
 		c.Body = serialise(roots, pretty)
 	case shape == 5: // fragment whose roots are table-scoped elements
 		var roots []*node
@@ -1130,6 +1186,9 @@ func (g0 *genEnv) genCase(t *rapid.T) Case {
 		}
 		body := &node{tag: "body", attrs: g.attrs("body")}
 		body.kids = g.flow(3, fb, 3)
+		if g.long > 0 {
+			body.kids = append(body.kids, g.longBlock())
+		}
 		htmlEl.kids = append(htmlEl.kids, body)
 		src := serialise([]*node{htmlEl}, pretty)
 		if c.Doctype != "" {
